@@ -5,12 +5,13 @@ import random
 
 HEAD = """module m
   implicit none
+  integer, parameter :: wp = 8
 contains
   subroutine s(a, b, c, a2, b2, n, m2, lo, hi, t, k, r)
     integer, intent(in) :: n, m2, lo, hi
-    real(kind=8), dimension(0:n+3), intent(inout) :: a, b, c
-    real(kind=8), dimension(0:n+3,0:m2+3), intent(inout) :: a2, b2
-    real(kind=8), intent(inout) :: t, r
+    real(kind=wp), dimension(0:n+3), intent(inout) :: a, b, c
+    real(kind=wp), dimension(0:n+3,0:m2+3), intent(inout) :: a2, b2
+    real(kind=wp), intent(inout) :: t, r
     integer, intent(inout) :: k
     integer :: i, j{locals}
 {body}
@@ -20,8 +21,8 @@ contains
     x = x + 10
   end subroutine bump
   subroutine scale2(x, y)
-    real(kind=8), intent(in) :: x
-    real(kind=8), intent(out) :: y
+    real(kind=wp), intent(in) :: x
+    real(kind=wp), intent(out) :: y
     y = x * 2.0
   end subroutine scale2
 end module m
@@ -166,7 +167,7 @@ end do""")
         post = f"\nr = {tv}" if obs == "local" else ""
         add("hoist", {"expr": ek, "pos": pos, "obs": obs},
             f"{pre}do i = lo, hi\n  {body[0]}\n  {body[1]}\nend do{post}",
-            locals_="\n    real(kind=8) :: tl")
+            locals_="\n    real(kind=wp) :: tl")
     # hoist with dependent statements
     add("hoist_chain", {"v": 1}, """
 do i = lo, hi
